@@ -219,6 +219,8 @@ class Interp:
             return Val('v', [i.data for i in items])
         if all(isinstance(i, Val) and i.shape == 'v' for i in items) and len({len(i.data) for i in items}) == 1:
             return Val('m', [list(i.data) for i in items])
+        if isinstance(node, ast.Tuple) and all(isinstance(i, Val) for i in items):
+            return Ref('tuple', items)          # a python tuple of arrays (Pose.matrix_vec)
         _err(node, 'unsupported sequence literal')
 
     def ev_UnaryOp(self, node, env):
@@ -293,6 +295,8 @@ class Interp:
                 return self._bind_class_attr(base.name, a, node)
             if base.kind == 'scipy':
                 return Ref('scipy', base.name + '.' + a)
+            if base.kind == 'rotation':
+                return Ref('rotmethod', a, base)
             _err(node, 'attribute %s of %r' % (a, base))
         if isinstance(base, Obj):
             if a in base.attrs:
@@ -328,6 +332,11 @@ class Interp:
             if isinstance(sl, ast.Name) and env.get(sl.id) is base.extra:
                 return base.name
             _err(node, 'unsupported row indexing')
+        if isinstance(base, Val) and base.shape == 'rv' and isinstance(sl, ast.Name):
+            ix = env.get(sl.id)
+            if isinstance(ix, Ref) and ix.kind == 'rowindex':
+                return Val('rv', list(base.data))      # a copy of the selected rows (fancy indexing copies)
+            _err(node, 'row-mode array indexed by something that is not an index array')
         if not isinstance(base, Val):
             _err(node, 'subscript of non-array')
         if base.shape == 'v':
@@ -410,6 +419,35 @@ class Interp:
             return S((fn.name, args[0].data))
         if fn.kind == 'npfn':
             return self.call_np(fn.name, args, kw, node)
+        if fn.kind == 'scipy':
+            # scipy.spatial.transform.Rotation is outside the model.  The two constructors enter as the specification
+            # functions of Model.v (rodrigues; quat_mat o quat_normalize) -- the hypothesis the Coq theorems carry and
+            # the tie step validates numerically against scipy on every run.
+            want = {'Rotation.from_rotvec': ('rotvec', 3), 'Rotation.from_quat': ('quat', 4), 'Rotation.from_matrix': ('matrix', 0)}
+            if fn.name not in want or kw or len(args) != 1:
+                _err(node, 'unsupported scipy call %s' % fn.name)
+            kind, n = want[fn.name]
+            a = args[0]
+            if kind == 'matrix':
+                if not (isinstance(a, Val) and a.shape == 'm'):
+                    _err(node, 'Rotation.from_matrix of a non-matrix')
+            elif not (isinstance(a, Val) and a.shape == 'v' and len(a.data) == n):
+                _err(node, '%s needs a %d-vector' % (fn.name, n))
+            return Ref('rotation', kind, a)
+        if fn.kind == 'rotmethod':
+            rot = fn.extra
+            if args or kw:
+                _err(node, 'Rotation.%s takes no arguments here' % fn.name)
+            if fn.name == 'as_matrix' and rot.name == 'rotvec':
+                flat = list(rot.extra.data)
+                return Val('m', [[('call', 'spec_rodrigues', 3 * i + j, flat) for j in range(3)] for i in range(3)])
+            if fn.name == 'as_matrix' and rot.name == 'quat':
+                q = list(rot.extra.data)
+                n = ('sqrt', self._sum([('sqr', x) for x in q]))
+                flat = [('div', x, n) for x in q]
+                return Val('m', [[('call', 'spec_quat_mat', 3 * i + j, flat) for j in range(3)] for i in range(3)])
+            _err(node, 'Rotation.from_%s(...).%s() is not algebraic in the model (matrix -> rotation vector / quaternion '
+                       'is characterised by uniqueness theorems and validated numerically)' % (rot.name, fn.name))
         if fn.kind == 'class':
             return self.construct(fn.name, args, kw, node)
         if fn.kind == 'method':
@@ -729,6 +767,47 @@ def _require_ast_equal(fdef, expected_src, what):
         raise TranslateError('%s: body is not the expected scipy wrapper: %s' % (what, [ast.dump(s)[:300] for s in body]))
 
 
+def spec_trees():
+    """Python transport of the Coq definitions rodrigues / quat_of_rotvec / quat_mat / quat_to_rotvec (Model.v):
+    GenTie.v proves the emitted trees equal to those definitions; the tie step evaluates them against scipy."""
+    v = var
+    th = ('sqrt', ('add', ('add', ('sqr', v(0)), ('sqr', v(1))), ('sqr', v(2))))
+    k = [('nandiv', v(i), th) for i in range(3)]
+    c, s = ('cos', th), ('sin', th)
+    d = ('sub', ('int', 1), c)
+
+    def dk(i, j):
+        return ('mul', ('mul', d, k[i]), k[j])
+
+    def sk(i):
+        return ('mul', s, k[i])
+    rod = [('add', c, dk(0, 0)), ('sub', dk(0, 1), sk(2)), ('add', dk(0, 2), sk(1)),
+           ('add', dk(1, 0), sk(2)), ('add', c, dk(1, 1)), ('sub', dk(1, 2), sk(0)),
+           ('sub', dk(2, 0), sk(1)), ('add', dk(2, 1), sk(0)), ('add', c, dk(2, 2))]
+    half = ('div', th, ('int', 2))
+    qrv = [('mul', k[i], ('sin', half)) for i in range(3)] + [('cos', half)]
+    x, y, z, w = v(0), v(1), v(2), v(3)
+
+    def m(a, b):
+        return ('mul', a, b)
+
+    def two(a):
+        return ('mul', ('int', 2), a)
+
+    def one_minus(a):
+        return ('sub', ('int', 1), two(a))
+    qm = [one_minus(('add', m(y, y), m(z, z))), two(('sub', m(x, y), m(z, w))), two(('add', m(x, z), m(y, w))),
+          two(('add', m(x, y), m(z, w))), one_minus(('add', m(x, x), m(z, z))), two(('sub', m(y, z), m(x, w))),
+          two(('sub', m(x, z), m(y, w))), two(('add', m(y, z), m(x, w))), one_minus(('add', m(x, x), m(y, y)))]
+    n3 = ('sqrt', ('add', ('add', ('sqr', x), ('sqr', y)), ('sqr', z)))
+    ang = ('mul', ('int', 2), ('atan2', n3, w))
+    q2r = [('mul', ('nandiv', c_, n3), ang) for c_ in (x, y, z)]
+    return {'spec_rodrigues': {'inputs': 3, 'outputs': rod, 'float32': False},
+            'spec_quat_of_rotvec': {'inputs': 3, 'outputs': qrv, 'float32': False},
+            'spec_quat_mat': {'inputs': 4, 'outputs': qm, 'float32': False},
+            'spec_quat_to_rotvec': {'inputs': 4, 'outputs': q2r, 'float32': False}}
+
+
 def translate(repo):
     """returns (functions, info): functions = ordered dict name -> {'inputs': n, 'outputs': [trees], 'float32': bool}"""
     sources = {}
@@ -739,7 +818,7 @@ def translate(repo):
     for need in ('LighthouseBsVector', 'Pose', 'LighthouseGeometrySolution', 'LighthouseGeometrySolver', 'IppeCf'):
         if need not in it.classes:
             raise TranslateError('class %s not found' % need)
-    out = {}
+    out = dict(spec_trees())
 
     def add(name, n_in, trees, cur):
         out[name] = {'inputs': n_in, 'outputs': trees, 'float32': cur in it.float32_used}
@@ -787,6 +866,13 @@ def translate(repo):
     o = it.call_function(B, method(B, 'from_projection', ('classmethod',)), [Ref('class', B), vvec(0, 2)], {}, None)
     add('from_projection', 2, bsv_pair(o, 'from_projection'), it.current)
 
+    if 'LighthouseBsVectors' not in it.classes:
+        raise TranslateError('class LighthouseBsVectors not found')
+    it.current = ('LighthouseBsVectors', 'projection_pair_list')
+    add('bsvs_projection_pair_row', 2, _translate_bsvs_list(it, 'projection_pair_list', bsv_self()), it.current)
+    it.current = ('LighthouseBsVectors', 'angle_list')
+    add('bsvs_angle_list_row', 2, _translate_bsvs_list(it, 'angle_list', bsv_self()), it.current)
+
     # ---------------- Pose
     P = 'Pose'
 
@@ -817,10 +903,29 @@ def translate(repo):
             # freshness contract (C15_compose_fresh): the result is built with the constructor, never an operand
             raise TranslateError('Pose.%s returns one of its operands instead of a new Pose' % nm)
         add('pose_' + nm, 24, pose_fields(o, nm), it.current)
-    _require_ast_equal(method(P, 'from_rot_vec', ('classmethod',)),
-                       'def f():\n return Pose(Rotation.from_rotvec(R_vec).as_matrix(), t_vec)', 'Pose.from_rot_vec')
-    _require_ast_equal(method(P, 'from_quat', ('classmethod',)),
-                       'def f():\n return Pose(Rotation.from_quat(R_quat).as_matrix(), t_vec)', 'Pose.from_quat')
+    it.current = (P, 'scale')
+    o = pose_obj(0)
+    r = it.call_function(P, method(P, 'scale', ('plain',)), [o, S(var(12))], {}, None)
+    if r is not NONE:
+        raise TranslateError('Pose.scale must return None (it changes the pose in place)')
+    add('pose_scale', 13, pose_fields(o, 'pose after scale()'), it.current)
+    it.current = (P, 'matrix_vec')
+    r = it.call_function(P, method(P, 'matrix_vec', ('property',)), [pose_obj(0)], {}, None)
+    if not (isinstance(r, Ref) and r.kind == 'tuple' and len(r.name) == 2):
+        raise TranslateError('Pose.matrix_vec must return the tuple (R, t)')
+    add('pose_matrix_vec', 12, _scalars(r.name[0], 9, 'matrix_vec[0]') + _scalars(r.name[1], 3, 'matrix_vec[1]'), it.current)
+    it.current = (P, 'from_rot_vec')
+    o = it.call_function(P, method(P, 'from_rot_vec', ('classmethod',)), [Ref('class', P), vvec(0, 3), vvec(3, 3)], {}, None)
+    add('pose_from_rot_vec', 6, pose_fields(o, 'from_rot_vec'), it.current)
+    it.current = (P, 'from_quat')
+    o = it.call_function(P, method(P, 'from_quat', ('classmethod',)), [Ref('class', P), vvec(0, 4), vvec(4, 3)], {}, None)
+    add('pose_from_quat', 7, pose_fields(o, 'from_quat'), it.current)
+    it.current = (P, 'from_rot_vec()')
+    o = it.call_function(P, method(P, 'from_rot_vec', ('classmethod',)), [Ref('class', P)], {}, None)
+    add('pose_from_rot_vec_default', 0, pose_fields(o, 'from_rot_vec()'), it.current)
+    it.current = (P, 'from_quat()')
+    o = it.call_function(P, method(P, 'from_quat', ('classmethod',)), [Ref('class', P)], {}, None)
+    add('pose_from_quat_default', 0, pose_fields(o, 'from_quat()'), it.current)
     _require_ast_equal(method(P, 'rot_vec', ('property',)),
                        'def f():\n return Rotation.from_matrix(self._R_matrix).as_rotvec()', 'Pose.rot_vec')
     _require_ast_equal(method(P, 'rot_quat', ('property',)),
@@ -838,9 +943,15 @@ def translate(repo):
     r = it.call_function(G, method(G, '_calc_angle_pairs', ('classmethod',)),
                          [Ref('class', G), vvec(0, 6, 'rv'), vvec(6, 6, 'rv'), vvec(12, 3, 'rv'), defs], {}, None)
     add('solver_calc_angle_pairs', 15, _scalars(r, 2, '_calc_angle_pairs'), it.current)
-    _require_ast_equal(method(G, '_params_to_pose', ('classmethod',)),
-                       'def f():\n r_vec = params[:defs.len_rot_vec]\n t = params[defs.len_rot_vec:defs.len_pose]\n'
-                       ' return Pose.from_rot_vec(R_vec=r_vec, t_vec=t)', 'LighthouseGeometrySolver._params_to_pose')
+    it.current = (G, '_params_to_pose')
+    o = it.call_function(G, method(G, '_params_to_pose', ('classmethod',)), [Ref('class', G), vvec(0, 6), defs], {}, None)
+    add('solver_params_to_pose', 6, pose_fields(o, '_params_to_pose'), it.current)
+    it.current = (G, '_poses_to_angle_pairs')
+    ix = [Ref('rowindex', k) for k in ('bs', 'cf', 'sens')]
+    r = it.call_function(G, method(G, '_poses_to_angle_pairs', ('classmethod',)),
+                         [Ref('class', G), vvec(0, 6, 'rv'), vvec(6, 6, 'rv'), vvec(12, 3, 'rv'), ix[0], ix[1], ix[2], defs],
+                         {}, None)
+    add('solver_poses_to_angle_pairs', 15, _scalars(r, 2, '_poses_to_angle_pairs'), it.current)
     _require_ast_equal(method(G, '_pose_to_params', ('classmethod',)),
                        'def f():\n return np.concatenate((pose.rot_vec, pose.translation))',
                        'LighthouseGeometrySolver._pose_to_params')
@@ -871,6 +982,37 @@ def translate(repo):
             'nodes': sum(size(t) for f in out.values() for t in f['outputs']),
             'float32_functions': sorted(n for n, f in out.items() if f['float32'])}
     return out, info
+
+
+def _translate_bsvs_list(it, name, vec_obj):
+    """LighthouseBsVectors.projection_pair_list / angle_list: allocation, `for i, vector in enumerate(self)` filling the
+    rows, return.  The frame is checked structurally, the stored expressions are translated for a generic element."""
+    ci = it.classes['LighthouseBsVectors']
+    if name not in ci.methods or ci.methods[name][0] != 'plain':
+        raise TranslateError('LighthouseBsVectors.%s not found' % name)
+    fdef = ci.methods[name][1]
+    body = [s for s in fdef.body if not (isinstance(s, ast.Expr) and isinstance(s.value, ast.Constant))]
+    alloc = {'projection_pair_list': 'result = np.empty((len(self), 2), dtype=float)',
+             'angle_list': 'result = np.empty((len(self) * 2), dtype=float)'}[name]
+    targets = {'projection_pair_list': ['result[i]'], 'angle_list': ['result[i * 2]', 'result[i * 2 + 1]']}[name]
+    if len(body) != 3 or ast.dump(body[0]) != ast.dump(ast.parse(alloc).body[0]) or \
+            ast.dump(body[2]) != ast.dump(ast.parse('return result').body[0]) or not isinstance(body[1], ast.For):
+        raise TranslateError('LighthouseBsVectors.%s: unexpected structure' % name)
+    loop = body[1]
+    ref = ast.parse('for i, vector in enumerate(self):\n pass').body[0]
+    if ast.dump(loop.target) != ast.dump(ref.target) or loop.orelse or \
+            ast.dump(loop.iter) != ast.dump(ref.iter) or len(loop.body) != len(targets):
+        raise TranslateError('LighthouseBsVectors.%s: unexpected loop' % name)
+    out = []
+    for st, tg in zip(loop.body, targets):
+        if not (isinstance(st, ast.Assign) and len(st.targets) == 1 and
+                ast.dump(st.targets[0]) == ast.dump(ast.parse(tg + ' = 0').body[0].targets[0])):
+            raise TranslateError('LighthouseBsVectors.%s: unexpected store %s' % (name, ast.dump(st)[:200]))
+        v = it.ev(st.value, {'vector': vec_obj})
+        out += _scalars(v, 2 if name == 'projection_pair_list' else 1, name)
+    if len(out) != 2:
+        raise TranslateError('LighthouseBsVectors.%s: two values per vector expected' % name)
+    return out
 
 
 def _translate_cf_to_ippe(it, fdef):
